@@ -23,6 +23,24 @@ type Lock struct {
 	LibSpec *common.Spec
 	Lib     *beacon.StandardUpgradeableBeaconState
 	Epc     *common.EpochsContext
+	// Wrap: the transitions are driven through an application-side wrapper around the upgradeable state
+	// (common.WrappedBeaconState: "states that wrap a fork-specific state, e.g. an upgradeable state")
+	Wrap bool
+}
+
+// outerState is what an application puts around the library's upgradeable state (tracing, metrics): it adds
+// nothing and unwraps to it.
+type outerState struct {
+	*beacon.StandardUpgradeableBeaconState
+}
+
+func (o *outerState) Unwrap() common.BeaconState { return o.StandardUpgradeableBeaconState }
+
+func (l *Lock) libArg() common.UpgradeableBeaconState {
+	if l.Wrap {
+		return &outerState{l.Lib}
+	}
+	return l.Lib
 }
 
 // NewLock starts the library side from the reference genesis state's bytes.
@@ -94,7 +112,7 @@ func (l *Lock) ApplyBlockLib(ctx context.Context, sb *refspec.SignedBlock) (erro
 		return fmt.Errorf("library cannot decode the block: %v", err), false
 	}
 	return Guard(func() error {
-		return common.StateTransition(ctx, l.LibSpec, l.Epc, l.Lib, env, true)
+		return common.StateTransition(ctx, l.LibSpec, l.Epc, l.libArg(), env, true)
 	})
 }
 
@@ -105,7 +123,7 @@ func (l *Lock) ApplyBlockRef(sb *refspec.SignedBlock) error {
 
 func (l *Lock) SkipLib(ctx context.Context, slot uint64) (error, bool) {
 	return Guard(func() error {
-		return common.ProcessSlots(ctx, l.LibSpec, l.Epc, l.Lib, common.Slot(slot))
+		return common.ProcessSlots(ctx, l.LibSpec, l.Epc, l.libArg(), common.Slot(slot))
 	})
 }
 
@@ -117,7 +135,7 @@ func (l *Lock) ForkLock() (*Lock, error) {
 	if err != nil {
 		return nil, err
 	}
-	return &Lock{Chain: l.Chain.Fork(), LibSpec: l.LibSpec, Lib: zb.Upgradeable(cp), Epc: l.Epc.Clone()}, nil
+	return &Lock{Chain: l.Chain.Fork(), LibSpec: l.LibSpec, Lib: zb.Upgradeable(cp), Epc: l.Epc.Clone(), Wrap: l.Wrap}, nil
 }
 
 // ForkLockKeys is ForkLock with diverging deposit keys on the copy.
